@@ -103,7 +103,7 @@ func c02Defaults(p *Prog, r *Report, rule string) {
 		var levelParam types.Object
 		for _, o := range paramObjs(fi) {
 			if o != nil {
-				if sl, ok := o.Type().(*types.Slice); ok && strings.HasSuffix(sl.Elem().String(), "TxIsoLevel") {
+				if sl, ok := o.Type().Underlying().(*types.Slice); ok && strings.HasSuffix(sl.Elem().String(), "TxIsoLevel") {
 					levelParam = o
 				}
 			}
@@ -148,7 +148,7 @@ func c02Defaults(p *Prog, r *Report, rule string) {
 						}
 					case *ast.Ident:
 						if o := objOf(env.Pkg.TypesInfo, x); o != nil && env.Vars[o] == nil {
-							if sl, ok := o.Type().(*types.Slice); ok && strings.HasSuffix(sl.Elem().String(), "TxIsoLevel") {
+							if sl, ok := o.Type().Underlying().(*types.Slice); ok && strings.HasSuffix(sl.Elem().String(), "TxIsoLevel") {
 								return &Val{Tag: "levels"}, true
 							}
 						}
